@@ -276,5 +276,9 @@ func TestC11(t *testing.T) {
 		}
 	}
 	r.Parallel(t, "virtual", r.Cfg.pick(12000, 400000), body(joinGen{Discs: []string{"unite"}}))
+	// consumers that keep what they received and write all over it (copy mode: over the whole
+	// capacity of the slice, which is theirs): a slice that shares memory with a later output or
+	// with the producer's slices destroys an input slice before it has been seen whole
+	r.Parallel(t, "virtual-retaining", r.Cfg.pick(4000, 80000), body(joinGen{Discs: []string{"unite"}, Retain: true}))
 	r.Parallel(t, "real", r.Cfg.pick(300, 5000), body(joinGen{Discs: []string{"unite"}, Real: true}))
 }
